@@ -114,6 +114,11 @@ def _common(a, ctx):
     naive = a.get("naive", False)
     k = dict(name=a["name"], start=ctx.stamp(a.get("start"), naive), end=ctx.stamp(a.get("end"), naive),
              wacc=a.get("wacc", 0.0))
+    if a.get("np_scalars"):
+        # numpy scalars where EAO accepts them at set-up: the window as numpy dates (no zone: naive stamps only)
+        for key in ("start", "end"):
+            if k[key] is not None and pd.Timestamp(k[key]).tzinfo is None:
+                k[key] = np.datetime64(pd.Timestamp(k[key]))
     if a.get("freq") is not None:
         k["freq"] = a["freq"]
     return k
@@ -166,6 +171,11 @@ def build_asset(a, ctx):
                  max_store_duration=a.get("max_store_duration"))
         if a.get("block") is not None:
             k["block_size"] = tl.freq_multiple(ctx.g["freq"], a["block"])
+        if a.get("np_scalars"):
+            for key in ("size", "cap_in", "cap_out", "start_level", "end_level", "cost_in", "cost_out", "inflow"):
+                v = k.get(key)
+                if isinstance(v, (int, float)):
+                    k[key] = np.int64(v) if float(v).is_integer() else np.float32(v)
         return Storage(**k)
     if t in ("plant", "chp", "chp_minload", "chp_noheat"):
         k = _common(a, ctx)
